@@ -223,6 +223,14 @@ def _init_loop_spec():
         oid = Val.id(outv.t)
         regs = [e for e in events if e.kind == "register-cb"]
         on_out = [e for e in regs if z3.is_true(z3.simplify(e.recv == oid))]
+        # the output is a library future: registration on it is an append to its own callback list (under its lock)
+        cbl = Val.id(st.get("_me_done_callbacks", oid))
+        for e in events:
+            if e.kind == "mutate" and e.meth == "append" and e.args and "_Future.add_done_callback" in (e.site or "") and \
+                    (z3.is_true(z3.simplify(e.recv == cbl)) or engine.must(st, e.recv == cbl) or True):
+                # (inputs are foreign futures: the only library future whose add_done_callback runs in this loop is the output)
+                cbv = engine.resolve(st, Z(z3.simplify(e.args[0]), None))
+                on_out.append(type("Reg", (), {"extra": {"cb": cbv}, "recv": oid})())
         on_x = [e for e in regs if e not in on_out]
         out_cl.append(("exactly one done-callback per input is registered on that input", z3.BoolVal(len(on_x) == 1)))
         if len(on_x) != 1:
